@@ -133,6 +133,9 @@ func (x *exec) verify(res *FuncResult) {
 		x.frame = x.computeFrame(entry, env)
 	}
 	x.stack = []*ssa.Function{fn}
+	if x.claims("loopvar") {
+		x.decodedUseObligs(fn)
+	}
 	x.run(fr, st)
 	x.checkBackEdges(fr)
 	if len(fr.rets) > 0 {
